@@ -434,7 +434,73 @@ class Executor:
         raise AnalysisError('unsupported statement %s at %s:%d' % (type(s).__name__, self.func.module.relpath, ln))
 
     # -- loops ------------------------------------------------------------------
+    def _reduction(self, s, st: State, fctx: FuncInfo):
+        """the accumulation idiom   acc = set()/[]/0 ; for x in S: [if c:] acc.add(e) / acc.append(e) / acc += e
+        is the comprehension  {e for x in S if c} / [e ...] / acc0 + sum(e ...): one canonical form for both"""
+        if not isinstance(s, ast.For) or s.orelse or len(s.body) != 1:
+            return None
+        b = s.body[0]
+        conds = []
+        while isinstance(b, ast.If) and not b.orelse and len(b.body) == 1:
+            conds.append(b.test)
+            b = b.body[0]
+        if isinstance(b, ast.Expr) and isinstance(b.value, ast.Call) and isinstance(b.value.func, ast.Attribute) \
+                and isinstance(b.value.func.value, ast.Name) and b.value.func.attr in ('add', 'append') \
+                and len(b.value.args) == 1 and not b.value.keywords:
+            acc, kind, elt = b.value.func.value.id, ('set' if b.value.func.attr == 'add' else 'list'), b.value.args[0]
+        elif isinstance(b, ast.AugAssign) and isinstance(b.op, ast.Add) and isinstance(b.target, ast.Name):
+            acc, kind, elt = b.target.id, 'sum', b.value
+        elif isinstance(b, ast.Assign) and len(b.targets) == 1 and isinstance(b.targets[0], ast.Name) \
+                and isinstance(b.value, ast.BinOp) and isinstance(b.value.op, ast.Add) and (
+                    (isinstance(b.value.left, ast.Name) and b.value.left.id == b.targets[0].id) or
+                    (isinstance(b.value.right, ast.Name) and b.value.right.id == b.targets[0].id)):
+            acc, kind = b.targets[0].id, 'sum'
+            elt = b.value.right if (isinstance(b.value.left, ast.Name) and b.value.left.id == acc) else b.value.left
+        else:
+            return None
+        init = st.locals.get(acc)
+        if init is None:
+            return None
+        if kind == 'set' and not (isinstance(init, ast.Call) and isinstance(init.func, ast.Name) and init.func.id == 'set'
+                                  and not init.args):
+            return None
+        if kind == 'list' and not (isinstance(init, ast.List) and not init.elts):
+            return None
+        if kind == 'sum' and not terms.is_number(init):
+            return None
+        for part in [elt, s.iter] + conds:
+            for c in ast.walk(part):
+                if isinstance(c, (ast.Yield, ast.YieldFrom, ast.NamedExpr)):
+                    return None
+                if isinstance(c, ast.Name) and c.id == acc:
+                    return None
+                if isinstance(c, ast.Call):
+                    f = c.func
+                    nm = f.id if isinstance(f, ast.Name) else f.attr if isinstance(f, ast.Attribute) else ''
+                    if nm not in PURE_FUNCS and nm not in PURE_METHODS:
+                        return None
+        gens = [ast.comprehension(target=s.target, iter=s.iter, ifs=conds, is_async=0)]
+        if kind == 'set':
+            comp = ast.SetComp(elt=elt, generators=gens)
+        elif kind == 'list':
+            comp = ast.ListComp(elt=elt, generators=gens)
+        else:
+            comp = ast.BinOp(left=init, op=ast.Add(), right=ast.Call(func=ast.Name(id='sum', ctx=ast.Load()),
+                             args=[ast.GeneratorExp(elt=elt, generators=gens)], keywords=[]))
+            saved = st.locals.pop(acc)
+        alts = self.ev(comp, st, fctx)
+        if len(alts) != 1 or alts[0][2]:
+            if kind == 'sum':
+                st.locals[acc] = saved
+            return None
+        st2, v, _ = alts[0]
+        st2.locals[acc] = v
+        return [(st2, ('fall',))]
+
     def exec_loop(self, s, st: State, fctx: FuncInfo):
+        red = self._reduction(s, st, fctx)
+        if red is not None:
+            return red
         ln = s.lineno
         oid = self.ordinal(fctx, s)
         body_writes = block_writes(s.body + getattr(s, 'orelse', []))
